@@ -288,6 +288,10 @@ func (s *Sim) observe() {
 		}
 	}
 	fmt.Fprintf(&b, "|locked=%v", s.W.IsLocked())
+	for _, f := range s.firedRaw {
+		s.firedLog = append(s.firedLog, fmt.Sprintf("%d:%d:%d", f.Obs, f.Ev, s.labelOf(f.H)))
+	}
+	s.firedRaw = s.firedRaw[:0]
 	sort.Strings(s.firedLog)
 	fmt.Fprintf(&b, "|fired=%v", s.firedLog)
 	s.firedLog = s.firedLog[:0]
